@@ -46,7 +46,7 @@ fn gen_ev(seed: u64, n: usize, len: usize, out: &str) {
             let my_rooms: Vec<u64> = has_room[s].iter().copied().collect();
             let my_rows: Vec<u64> = rows[s].keys().copied().collect();
             let persons: Vec<u64> = rows[s].iter().filter(|(_, v)| v.1 == 0).map(|(k, _)| *k).collect();
-            let kind = g.weighted(&[8, 6, 3, 1, 3, 1, 3, 3, 3, 1, if sites == 2 { 5 } else { 0 }, 3, 1, 1, 1]);
+            let kind = g.weighted(&[8, 6, 3, 1, 3, 1, 3, 3, 3, 1, if sites == 2 { 5 } else { 0 }, 3, 2, 2, 3]);
             match kind {
                 0 => {
                     if let Some(r) = pick(&mut g, &my_rooms) {
@@ -94,7 +94,14 @@ fn gen_ev(seed: u64, n: usize, len: usize, out: &str) {
                         // `early` (reader held, stream closed before the acknowledgements) is no longer generated: since
                         // /repo e303771 the request waits for the acknowledgements and the harness would wait 3 s for an
                         // event that cannot come; the corpus keeps it as a regression replay
-                        let mode = "acked";
+                        // a third of the streams are fire-and-forget: the result receiver is dropped before or in
+                        // the middle of the stream
+                        // the middle of the stream, with at least two mutations sent afterwards
+                        let mode = if k >= 2 && g.chance(1, 3) {
+                            format!("dropped keep={}", g.below(k - 1))
+                        } else {
+                            "acked".to_string()
+                        };
                         let mut items = vec![];
                         for _ in 0..k {
                             let r = *g.pick(&my_rooms);
@@ -202,7 +209,17 @@ fn gen_ev(seed: u64, n: usize, len: usize, out: &str) {
                         }
                     }
                 }
-                12 => writeln!(w, "flush s={}", s).unwrap(),
+                12 => {
+                    // two to four room mutations of one room in flight at once
+                    let mine: Vec<u64> = owner.iter().filter(|(_, o)| **o == s).map(|(r, _)| *r).collect();
+                    if let (Some(r), true) = (pick(&mut g, &mine), g.chance(2, 3)) {
+                        let k = 2 + g.below(3);
+                        let items: Vec<String> = (0..k).map(|_| format!("roomadd,r:{}", r)).collect();
+                        writeln!(w, "mix s={} ops={}", s, items.join(";")).unwrap();
+                    } else {
+                        writeln!(w, "flush s={}", s).unwrap();
+                    }
+                }
                 13 => {
                     if next_room <= 2 {
                         writeln!(w, "room s={} r={}", s, next_room).unwrap();
